@@ -3083,12 +3083,22 @@ func (r *Run) foundIndex(ia *ssa.IndexAddr, use ssa.Instruction, asserted types.
 	if sc == nil {
 		return "", false
 	}
-	// a search of the standard library over the same byte slice: bytes.Index* return -1 or a
-	// position inside their first argument
-	libSearch := false
-	if sc.Pkg != nil && sc.Pkg.Pkg.Path() == "bytes" && (strings.HasPrefix(sc.Name(), "Index") || strings.HasPrefix(sc.Name(), "LastIndex")) &&
-		len(c.Call.Args) > 0 && c.Call.Args[0] == ia.X && asserted == nil {
-		libSearch = true
+	// a search of the standard library over the same byte slice. IndexByte, IndexRune, IndexAny,
+	// IndexFunc and their Last… forms return -1 or the position of an element they looked at.
+	// Index and LastIndex do so only for a needle that is not empty: bytes.Index(s, empty) is 0
+	// (also for an empty s) and bytes.LastIndex(s, empty) is len(s).
+	libSearch, libWhy := false, ""
+	if sc.Pkg != nil && sc.Pkg.Pkg.Path() == "bytes" && len(c.Call.Args) > 0 && c.Call.Args[0] == ia.X && asserted == nil {
+		switch sc.Name() {
+		case "IndexByte", "LastIndexByte", "IndexRune", "IndexAny", "LastIndexAny", "IndexFunc", "LastIndexFunc":
+			libSearch, libWhy = true, "-1 or the position of an element of it"
+		case "Index", "LastIndex":
+			if len(c.Call.Args) == 2 {
+				if why, ok := nonEmptyBytesAt(c.Call.Args[1], c.Block()); ok {
+					libSearch, libWhy = true, "the needle is not empty ("+why+"), so -1 or a position inside it"
+				}
+			}
+		}
 	}
 	g := r.P.declared(sc)
 	var list *ssa.Parameter
@@ -3141,7 +3151,7 @@ func (r *Run) foundIndex(ia *ssa.IndexAddr, use ssa.Instruction, asserted types.
 	}
 	if libSearch {
 		// nothing re-slices the list between the search and the use: the same SSA value is indexed
-		return "the index is the non-negative result of bytes." + sc.Name() + " over the same slice: -1 or a position inside it", true
+		return "the index is the non-negative result of bytes." + sc.Name() + " over the same slice: " + libWhy, true
 	}
 	if asserted != nil {
 		for _, ins := range allInstrs(use.Parent()) {
@@ -3241,6 +3251,54 @@ func (r *Run) foundIndex(ia *ssa.IndexAddr, use ssa.Instruction, asserted types.
 		why += " and found an element of the asserted type (comma-ok); the list is not touched between the search and the use"
 	}
 	return why, true
+}
+
+// nonEmptyBytesAt: the byte slice v holds at least one byte where block b runs — a conversion
+// of a non-empty constant string, a literal with elements, or a value whose length a test
+// dominating b found non-zero.
+func nonEmptyBytesAt(v ssa.Value, b *ssa.BasicBlock) (string, bool) {
+	switch x := v.(type) {
+	case *ssa.Convert:
+		if k, ok := x.X.(*ssa.Const); ok && k.Value != nil && k.Value.Kind() == constant.String && len(constant.StringVal(k.Value)) > 0 {
+			return "a non-empty constant", true
+		}
+	case *ssa.Slice:
+		if x.Low == nil && x.High == nil && x.Max == nil {
+			if pt, ok := x.X.Type().Underlying().(*types.Pointer); ok {
+				if at, ok := pt.Elem().Underlying().(*types.Array); ok && at.Len() > 0 {
+					if _, isAlloc := x.X.(*ssa.Alloc); isAlloc {
+						return "a literal with elements", true
+					}
+				}
+			}
+		}
+	}
+	fn := b.Parent()
+	if fn == nil {
+		return "", false
+	}
+	for _, ins := range allInstrs(fn) {
+		iff, ok := ins.(*ssa.If)
+		if !ok || len(iff.Block().Succs) != 2 || iff.Block().Succs[0] == iff.Block().Succs[1] {
+			continue
+		}
+		bo, ok := iff.Cond.(*ssa.BinOp)
+		if !ok {
+			continue
+		}
+		subj, nonEmptyWhenTrue, ok := nilTestOf(bo, 0)
+		if !ok || subj != v || isNilConst(bo.X) || isNilConst(bo.Y) {
+			continue
+		}
+		side := 1
+		if nonEmptyWhenTrue {
+			side = 0
+		}
+		if sb := iff.Block().Succs[side]; len(sb.Preds) == 1 && (sb == b || sb.Dominates(b)) {
+			return "its length was tested", true
+		}
+	}
+	return "", false
 }
 
 // searchIndexProver (P1): S[p] with p found by a search over S (foundIndex).
@@ -3567,55 +3625,9 @@ func dynComparableAt(v ssa.Value, b *ssa.BasicBlock) bool {
 	return true
 }
 
-// clampIsMin: phi merges `next` and `total` and takes total exactly when next exceeds it: the
-// block that supplies next ends in a comparison of the two whose "next is larger" side is the
-// block that supplies total (`hi := next; if hi > total { hi = total }`).
-func clampIsMin(phi *ssa.Phi, isNext, isTotal func(ssa.Value) bool) bool {
-	if len(phi.Edges) != 2 {
-		return false
-	}
-	b := phi.Block()
-	var pn, pt *ssa.BasicBlock
-	for i, ed := range phi.Edges {
-		switch {
-		case isTotal(ed):
-			pt = b.Preds[i]
-		case isNext(ed):
-			pn = b.Preds[i]
-		}
-	}
-	if pn == nil || pt == nil || len(pn.Instrs) == 0 {
-		return false
-	}
-	iff, ok := pn.Instrs[len(pn.Instrs)-1].(*ssa.If)
-	if !ok {
-		return false
-	}
-	bo, ok := iff.Cond.(*ssa.BinOp)
-	if !ok {
-		return false
-	}
-	var larger *ssa.BasicBlock // successor taken when next > total (or >=)
-	switch {
-	case (bo.Op == token.GTR || bo.Op == token.GEQ) && isNext(bo.X) && isTotal(bo.Y),
-		(bo.Op == token.LSS || bo.Op == token.LEQ) && isTotal(bo.X) && isNext(bo.Y):
-		larger = pn.Succs[0]
-	case (bo.Op == token.LEQ || bo.Op == token.LSS) && isNext(bo.X) && isTotal(bo.Y),
-		(bo.Op == token.GEQ || bo.Op == token.GTR) && isTotal(bo.X) && isNext(bo.Y):
-		larger = pn.Succs[1]
-	default:
-		return false
-	}
-	// `<` / `>` in the second group would leave next == total on the "larger" side only when the
-	// comparison is strict the other way round; either is fine: at equality both values agree
-	return larger == pt && len(pt.Preds) == 1
-}
-
-// chunkSliceProver: the slice `inputs[i*m : hi]` in the chunk body of MultiOpQueryer.Query (the
-// map closure of its AsyncMapReduce call, or the one function that closure hands its index to).
-// i is drawn from lo.Range(len(inputs)/m + 1), so i*m <= len(inputs); hi is absent or is
-// min((i+1)*m, len(inputs)) written as a clamp, so i*m <= hi <= len(inputs) (m = maxBatchSize is
-// positive: NewMultiOpQueryer callers pass a constant; same assumption as the tabled entries).
+// chunkSliceProver: a slice of the list that is cut into chunks, in the chunk body of
+// MultiOpQueryer.Query (the map closure of its AsyncMapReduce call, or the one function that
+// closure hands its index to). The bounds are computed, not matched: see rule_chunk.go.
 func (r *Run) chunkSliceProver(fn *ssa.Function, e ast.Expr) (string, bool) {
 	se, ok := e.(*ast.SliceExpr)
 	if !ok {
@@ -3627,262 +3639,26 @@ func (r *Run) chunkSliceProver(fn *ssa.Function, e ast.Expr) (string, bool) {
 			sl = s
 		}
 	}
-	if sl == nil || sl.Low == nil || sl.Max != nil {
+	if sl == nil || sl.Max != nil {
 		return "", false
 	}
-	var idx *ssa.Parameter
-	for _, p := range fn.Params {
-		if lowIsIdxTimesBatch(sl.Low, p) {
-			idx = p
-		}
-	}
-	if idx == nil {
-		return "", false
-	}
-	// fn is the chunk body of a POS-chunks fan-out whose payload is lo.Range(len/m + 1)
-	isBody := false
 	for _, site := range r.P.Funcs {
 		if class, ok := reducerTable[fnName(site)]; !ok || class.kind != "POS-chunks" {
 			continue
 		}
-		{
-			call, mapF, _ := r.amrSite(site)
-			if call == nil || mapF == nil || len(mapF.Params) != 1 || len(call.Call.Args) != 4 {
-				continue
-			}
-			body, bidx := chunkBody(r, mapF, mapF.Params[0])
-			if body == nil {
-				body, bidx = mapF, mapF.Params[0]
-			}
-			if body != fn || bidx != idx {
-				continue
-			}
-			// payload: lo.Range(len(S)/m + 1)
-			rc, ok := unwrap(call.Call.Args[0]).(*ssa.Call)
-			if !ok || !strings.HasSuffix(strings.SplitN(calleeName(&rc.Call), "[", 2)[0], "lo.Range") || len(rc.Call.Args) != 1 {
-				continue
-			}
-			// the count may be computed by a helper that only returns an expression over its
-			// parameters (`q.chunkCount(n)` for `n/q.maxBatchSize + 1`): read the expression
-			// with the call's arguments in place of the parameters
-			count := viaCell(unwrap(rc.Call.Args[0]))
-			pmap := map[*ssa.Parameter]ssa.Value{}
-			if hc, ok := count.(*ssa.Call); ok {
-				if res, m := r.pureResultOf(hc); res != nil {
-					count, pmap = viaCell(unwrap(res)), m
-				}
-			}
-			resolve := func(v ssa.Value) ssa.Value {
-				v = viaCell(unwrap(v))
-				if p, ok := v.(*ssa.Parameter); ok {
-					if a, ok := pmap[p]; ok {
-						return viaCell(unwrap(a))
-					}
-				}
-				return v
-			}
-			add, ok := count.(*ssa.BinOp)
-			if !ok || add.Op != token.ADD {
-				continue
-			}
-			var quo *ssa.BinOp
-			if isIntConst(add.Y, 1) {
-				quo, _ = resolve(add.X).(*ssa.BinOp)
-			} else if isIntConst(add.X, 1) {
-				quo, _ = resolve(add.Y).(*ssa.BinOp)
-			}
-			if quo == nil || quo.Op != token.QUO || !dependsOnField(quo.Y, "maxBatchSize") {
-				continue
-			}
-			if lc, ok := resolve(quo.X).(*ssa.Call); ok {
-				if b, ok := lc.Call.Value.(*ssa.Builtin); ok && b.Name() == "len" && types.Identical(lc.Call.Args[0].Type(), sl.X.Type()) {
-					// the list whose length was taken is the list that is cut: one parameter of the
-					// fan-out's function, never assigned again (third audit: `inputs = lo.Filter(…)`
-					// after the length was taken)
-					param := func(v ssa.Value) *ssa.Parameter {
-						v = unwrap(v)
-						if ld, ok := v.(*ssa.UnOp); ok && ld.Op == token.MUL {
-							if al, ok := ld.X.(*ssa.Alloc); ok {
-								if sts := storesTo(al); len(sts) == 1 {
-									v = sts[0].Val
-								}
-							}
-						}
-						if al, ok := v.(*ssa.Alloc); ok { // the cell itself (a binding)
-							if sts := storesTo(al); len(sts) == 1 {
-								v = sts[0].Val
-							}
-						}
-						p, _ := v.(*ssa.Parameter)
-						return p
-					}
-					pLen := param(lc.Call.Args[0])
-					var pUsed *ssa.Parameter
-					switch x := sl.X.(type) {
-					case *ssa.FreeVar, *ssa.UnOp:
-						var fv *ssa.FreeVar
-						if f, ok := x.(*ssa.FreeVar); ok {
-							fv = f
-						} else if ld := x.(*ssa.UnOp); ld.Op == token.MUL {
-							fv, _ = ld.X.(*ssa.FreeVar)
-						}
-						if fv != nil {
-							for _, i3 := range allInstrs(site) {
-								if mc, ok := i3.(*ssa.MakeClosure); ok && mc.Fn == ssa.Value(fn) {
-									for k, fvk := range fn.FreeVars {
-										if fvk == fv && k < len(mc.Bindings) {
-											pUsed = param(mc.Bindings[k])
-										}
-									}
-								}
-							}
-						}
-					case *ssa.Parameter:
-						// the delegate's parameter: what the closure passes for it
-						for _, e := range r.P.CG.In[fn] {
-							if e.Kind != "static" {
-								continue
-							}
-							for k, a := range e.Site.Common().Args {
-								if k < len(fn.Params) && fn.Params[k] == x {
-									v := unwrap(a)
-									if ld, ok := v.(*ssa.UnOp); ok && ld.Op == token.MUL {
-										if fv, ok := ld.X.(*ssa.FreeVar); ok {
-											v = fv
-										}
-									}
-									if fv, ok := v.(*ssa.FreeVar); ok {
-										caller := e.Caller
-										for _, i3 := range allInstrs(site) {
-											if mc, ok := i3.(*ssa.MakeClosure); ok && mc.Fn == ssa.Value(caller) {
-												for k2, fvk := range caller.FreeVars {
-													if fvk == fv && k2 < len(mc.Bindings) {
-														pUsed = param(mc.Bindings[k2])
-													}
-												}
-											}
-										}
-									} else {
-										pUsed = param(v)
-									}
-								}
-							}
-						}
-					}
-					if pLen != nil && pLen == pUsed && pLen.Parent() == site {
-						isBody = true
-					}
-				}
-			}
+		call, mapF, _ := r.amrSite(site)
+		if call == nil || mapF == nil || len(mapF.Params) != 1 || len(call.Call.Args) != 4 {
+			continue
 		}
-	}
-	if !isBody {
-		return "", false
-	}
-	lenOfX := func(v ssa.Value) bool {
-		c, ok := viaCell(unwrap(v)).(*ssa.Call)
-		if !ok {
-			return false
+		body, _ := chunkBody(r, mapF, mapF.Params[0])
+		if body == nil {
+			body = mapF
 		}
-		b, ok := c.Call.Value.(*ssa.Builtin)
-		return ok && b.Name() == "len" && (c.Call.Args[0] == sl.X || viaCell(c.Call.Args[0]) == viaCell(sl.X))
-	}
-	nextChunk := func(v ssa.Value) bool {
-		bo, ok := v.(*ssa.BinOp)
-		if !ok || bo.Op != token.MUL {
-			return false
+		if body != fn {
+			continue
 		}
-		plus1 := func(x ssa.Value) bool {
-			a, ok := x.(*ssa.BinOp)
-			return ok && a.Op == token.ADD && ((a.X == ssa.Value(idx) && isIntConst(a.Y, 1)) || (a.Y == ssa.Value(idx) && isIntConst(a.X, 1)))
-		}
-		return (plus1(bo.X) && dependsOnField(bo.Y, "maxBatchSize")) || (plus1(bo.Y) && dependsOnField(bo.X, "maxBatchSize"))
-	}
-	if sl.High == nil {
-		return "chunk arithmetic: the chunk index is drawn from lo.Range(len/m + 1), so index*m <= len of the sliced inputs", true
-	}
-	// both bounds from one helper of the module (`from, to := chunkBounds(i, m, n)`): read its
-	// results with the call's arguments in place of its parameters
-	if hx, ok := sl.High.(*ssa.Extract); ok {
-		lx, _ := sl.Low.(*ssa.Extract)
-		call, _ := hx.Tuple.(*ssa.Call)
-		if lx == nil || call == nil || lx.Tuple != hx.Tuple {
-			return "", false
-		}
-		sc := call.Call.StaticCallee()
-		if sc == nil || !inModule(sc) || sc.Blocks == nil || len(returnsOf(sc)) != 1 {
-			return "", false
-		}
-		rv := retVals(returnsOf(sc)[0])
-		if hx.Index >= len(rv) {
-			return "", false
-		}
-		argOf := func(x ssa.Value) ssa.Value {
-			for i, p := range sc.Params {
-				if ssa.Value(p) == x && i < len(call.Call.Args) {
-					return call.Call.Args[i]
-				}
-			}
-			return nil
-		}
-		// the total handed to the helper is the length of the list that is cut (taken in the
-		// enclosing function and captured, or taken here)
-		isTotal := func(x ssa.Value) bool {
-			a := argOf(x)
-			if a == nil {
-				return false
-			}
-			if lenOfX(a) {
-				return true
-			}
-			v := unwrap(a)
-			if ld, ok := v.(*ssa.UnOp); ok && ld.Op == token.MUL {
-				if fv, ok := ld.X.(*ssa.FreeVar); ok && fn.Parent() != nil {
-					for _, i3 := range allInstrs(fn.Parent()) {
-						if mc, ok := i3.(*ssa.MakeClosure); ok && mc.Fn == ssa.Value(fn) {
-							for k, fvk := range fn.FreeVars {
-								if fvk == fv && k < len(mc.Bindings) {
-									if al, ok := mc.Bindings[k].(*ssa.Alloc); ok {
-										if sts := storesTo(al); len(sts) == 1 {
-											if lc, ok := unwrap(sts[0].Val).(*ssa.Call); ok {
-												if b, ok := lc.Call.Value.(*ssa.Builtin); ok && b.Name() == "len" && types.Identical(lc.Call.Args[0].Type(), sl.X.Type()) {
-													if p, ok := viaCell(unwrap(lc.Call.Args[0])).(*ssa.Parameter); ok && p.Parent() == fn.Parent() {
-														return true
-													}
-												}
-											}
-										}
-									}
-								}
-							}
-						}
-					}
-				}
-			}
-			return false
-		}
-		isNext := func(x ssa.Value) bool {
-			bo, ok := x.(*ssa.BinOp)
-			if !ok || bo.Op != token.MUL {
-				return false
-			}
-			plus1 := func(y ssa.Value) bool {
-				a, ok := y.(*ssa.BinOp)
-				return ok && a.Op == token.ADD && ((argOf(a.X) == ssa.Value(idx) && isIntConst(a.Y, 1)) || (argOf(a.Y) == ssa.Value(idx) && isIntConst(a.X, 1)))
-			}
-			batch := func(y ssa.Value) bool { a := argOf(y); return a != nil && dependsOnField(a, "maxBatchSize") }
-			return (plus1(bo.X) && batch(bo.Y)) || (plus1(bo.Y) && batch(bo.X))
-		}
-		if phi, ok := unwrap(rv[hx.Index]).(*ssa.Phi); ok && len(phi.Edges) == 2 {
-			if clampIsMin(phi, isNext, isTotal) {
-				return "chunk arithmetic through " + fnName(sc) + ": low = index*m with index < len/m + 1, high = min((index+1)*m, len)", true
-			}
-		}
-		return "", false
-	}
-	if phi, ok := sl.High.(*ssa.Phi); ok && len(phi.Edges) == 2 {
-		if clampIsMin(phi, nextChunk, lenOfX) {
-			return "chunk arithmetic: low = index*m with index < len/m + 1, high = min((index+1)*m, len) written as a clamp", true
+		if why, ok := r.proveChunkSlice(site, call, mapF, fn, sl); ok {
+			return why, true
 		}
 	}
 	return "", false
